@@ -54,6 +54,9 @@ func runC12(p *Program, r *Report) {
 		}
 	}
 	if !reportFails(shape) && !force {
+		lang := NewReport("C12", r.Tier, r.Seed)
+		c12ByLanguage(p, lang)
+		crossCheck(shape, lang)
 		mergeReport(r, shape)
 		return
 	}
